@@ -454,7 +454,11 @@ func (x *c12Buf) start(r *c12Run) {
 	name := fmt.Sprintf("buffer %d", x.id)
 	x.h = r.newHandle(name, x.b.Close, x.b.Done, func(h *c12Handle) bool {
 		h.postStage = "Slice"
-		x.atClose = x.b.Slice()
+		snap := x.b.Slice()
+		x.atClose = append([]interface{}(nil), snap...)
+		for i := range snap {
+			snap[i] = "overwritten by the caller" // a snapshot is the caller's own copy: writing to it changes nothing else
+		}
 		x.sliced = true
 		// closing a Buffer closes all of its consumers: a consumer Close invoked from now on is a second one
 		for _, k := range x.cons {
